@@ -501,6 +501,21 @@ func normExpr(pkg *packages.Package, e ast.Expr) string {
 			}
 			return x.Name
 		case *ast.SelectorExpr:
+			// a field moved into a struct introduced later reads under the name
+			// the table knows: c.rx.pendingAck is c.pendingAck
+			if sel := pkg.TypesInfo.Selections[x]; sel != nil && sel.Kind() == types.FieldVal {
+				t := sel.Recv()
+				if pt, ok := t.(*types.Pointer); ok {
+					t = pt.Elem()
+				}
+				if nt, ok := t.(*types.Named); ok {
+					if al, moved := pathx.FieldAlias[nt.Obj().Name()+"."+x.Sel.Name]; moved {
+						if holder, isSel := x.X.(*ast.SelectorExpr); isSel {
+							return render(holder.X) + "." + al[1]
+						}
+					}
+				}
+			}
 			return render(x.X) + "." + x.Sel.Name
 		case *ast.IndexExpr:
 			return render(x.X) + "[" + bareParens(render(x.Index)) + "]"
